@@ -152,6 +152,17 @@ example : trace exResume =
      .rpass .AfterChooseHost 0 [(2, {})],
      .up false, .spass 0 [(0, .Continue)], .dh (some 200) false, .dd true] := by decide +kernel
 
+/-- the second repaired defect: a BeforeRoute filter (index 1) returns re-match-route, which the proxy honours only in
+AfterRoute; the AfterRoute pass nevertheless starts at filter 0 (before the fix it started at index 1 and skipped it) -/
+def exWrongPhase : Cfg :=
+  { recv := [⟨.AfterRoute, []⟩, ⟨.BeforeRoute, [⟨.none, .ReMatchRoute⟩]⟩, ⟨.AfterRoute, []⟩], send := [], env := envOK }
+
+example : trace exWrongPhase =
+    [.rpass .BeforeRoute 0 [(1, ⟨.none, .ReMatchRoute⟩)],
+     .rpass .AfterRoute 0 [(0, {}), (2, {})],
+     .rpass .AfterChooseHost 0 [],
+     .up false, .spass 0 [], .dh (some 200) false, .dd true] := by decide +kernel
+
 /-- **negation witness of the unrestricted single_reply** (finding): a filter that asks nine times for re-match and
 then answers 403 is invoked ten times; the tenth call of `receive` returns `UpFilter` to a task loop that has run out of
 iterations: the stream is answered by nobody and never cleaned. -/
